@@ -11,8 +11,8 @@ import json, os
 from . import lib
 
 EVENTS = ["MakeFan", "SetFan", "ApplyEff", "ApplyGeo", "ApplyBlock", "FanSums", "IterEff", "IterGeo", "IterBlock", "KLStep",
-          "DetPair", "SetDetPair", "ProjFanSums", "IterEffNoModel"]
-MUST = ["MakeFan", "SetFan", "ApplyEff", "ApplyGeo", "ApplyBlock", "FanSums", "IterEff", "IterGeo", "IterBlock", "KLStep"]
+          "DetPair", "SetDetPair", "ProjFanSums", "EffFanSums", "IterEffNoModel", "Abort"]
+MUST = [e for e in EVENTS if e != "Abort"]
 
 
 def scenario_slice(recs, line):
@@ -53,7 +53,24 @@ def run(ctx):
         exe = lib.build_driver("c20_mlnorm")
         t = os.path.join(ctx.work, "replay.ndjson")
         lib.run_driver(exe, ["replay", gen, t], env=env, timeout=1200)
-        traces = [t]
+        # block factors on a fan that contains pairs of crystals of one block (known finding C20-block-samepair)
+        t2 = os.path.join(ctx.work, "samepair.ndjson")
+        lib.run_driver(exe, ["samepair", t2], env=env, timeout=600)
+        traces = [t, t2]
+        if not q:
+            # the same replay (quick family) and the same-block case against the ASan/UBSan-instrumented STIR
+            # libraries: a memory error inside the code under test ends the child process of that configuration
+            # and becomes an Abort line, which the specification rejects
+            exe_san = lib.build_driver("c20_mlnorm", santree=True)
+            gen_q = os.path.join(ctx.work, "gen_quick.ndjson")
+            rq = lib.tlc("Gen_MLNorm", cfg="Gen_MLNorm", workers=1, timeout=900, heap="6g", env={"GEN": gen_q})
+            if not rq.ok or not os.path.exists(gen_q):
+                raise lib.ModelFailure("Gen_MLNorm (quick family) failed:\n" + rq.out[-3000:])
+            t3 = os.path.join(ctx.work, "replay_san.ndjson")
+            lib.run_driver(exe_san, ["replay", gen_q, t3], env={"VERIF_SEED": str(ctx.seed + 1000)}, timeout=1500)
+            t4 = os.path.join(ctx.work, "samepair_san.ndjson")
+            lib.run_driver(exe_san, ["samepair", t4], env=env, timeout=600)
+            traces += [t3, t4]
     # ---------------------------------------------------------------- 3. validate
     chunks = []
     for t in traces:
@@ -75,12 +92,12 @@ def run(ctx):
                 cid = tuple(rec[k] for k in ("N", "R", "pbT", "vT", "pbA", "vA", "maxSeg", "minTang", "maxTang"))
                 if nconf % 5 == 1:
                     ctx.sample({k: rec[k] for k in ("name", "N", "R", "pbT", "vT", "pbA", "vA", "maxSeg", "minTang", "maxTang", "geo", "block")})
-            elif rec["e"] == "Abort" or rec["e"] == "ConfigRejected":
+            elif rec["e"] == "ConfigRejected":
                 ctx.traces += 1
             elif cid is not None:
                 if rec["e"] in count:
                     count[rec["e"]] += 1
-                ctx.nontrivial(str(cid) + rec["e"] + str(rec.get("apply", "")) + str(rec.get("src", "")) + str(rec.get("it", "")))
+                ctx.nontrivial(str(cid) + rec["e"] + str(rec.get("apply", "")) + str(rec.get("src", "")) + str(rec.get("it", "")) + str(rec.get("seg", "")) + str(rec.get("ax", "")))
         if at is not None or not ok:
             ctx.violation("trace not consumed (line %s)" % at, p)
             continue
